@@ -4,7 +4,7 @@
   Statements only (proofs are one-liners from XsProofs).  `after ops` is the
   store after an arbitrary history `ops` of append / import / remove / read /
   gc / drain / reopen operations; `WfOps` only says ids are 128-bit.
-  `WfRead` excludes the all-ones context id (known finding F12, see C06).
+  `WfRead` asks for 128-bit ids only (the all-ones context id included: F12, fixed).
 -/
 import XsProps.Common
 namespace Xs.C01
